@@ -234,11 +234,18 @@ where
                 // The card refused (e.g. address out of range): no data will follow
                 return Err(Error::ReadError);
             }
+            let mut result = Ok(());
             for block in blocks.iter_mut() {
-                self.read_data(&mut block.contents)?;
+                result = self.read_data(&mut block.contents);
+                if result.is_err() {
+                    break;
+                }
             }
-            // Stop the read
-            self.card_command(CMD12, 0)?;
+            // Stop the read - also after a failed block, or the card is left
+            // in the middle of the multi-block transfer
+            let stopped = self.card_command(CMD12, 0);
+            result?;
+            stopped?;
         }
         Ok(())
     }
@@ -284,13 +291,24 @@ where
                 // listening for commands: it must not be sent the data blocks
                 return Err(Error::WriteError);
             }
+            let mut result = Ok(());
             for block in blocks.iter() {
-                self.wait_not_busy(Delay::new_write())?;
-                self.write_data(WRITE_MULTIPLE_TOKEN, &block.contents)?;
+                result = self.wait_not_busy(Delay::new_write());
+                if result.is_ok() {
+                    result = self.write_data(WRITE_MULTIPLE_TOKEN, &block.contents);
+                }
+                if result.is_err() {
+                    break;
+                }
             }
-            // Stop the write
-            self.wait_not_busy(Delay::new_write())?;
-            self.write_byte(STOP_TRAN_TOKEN)?;
+            // Stop the write - also after a rejected block, or the card is
+            // left waiting for the next block of the multi-block transfer
+            let mut stopped = self.wait_not_busy(Delay::new_write());
+            if stopped.is_ok() {
+                stopped = self.write_byte(STOP_TRAN_TOKEN);
+            }
+            result?;
+            stopped?;
         }
         Ok(())
     }
